@@ -1,4 +1,5 @@
 import PdeVerif.Model.Coords
+import PdeVerif.Model.Stencil
 import PdeVerif.Lemmas.Basic
 import Mathlib.Tactic.Ring
 import Mathlib.Tactic.LinearCombination
@@ -8,6 +9,8 @@ import Mathlib.Data.List.Basic
 import Mathlib.RingTheory.Derivation.Basic
 import Mathlib.Algebra.MvPolynomial.PDeriv
 import Mathlib.Analysis.SpecialFunctions.Trigonometric.Deriv
+import Mathlib.Analysis.SpecialFunctions.Sqrt
+import Mathlib.Tactic.Linarith
 /-
 C19 - vector and tensor components are tied to the right basis vectors.
 Property theorems about `PdeVerif.Coords` (model of pde/grids/coordinates/*.py,
@@ -137,6 +140,16 @@ theorem basis_right_handed (cl : GridClass) (hc : Curvilinear cl) (n : ℕ) (a :
   · exact polar_basis_right_handed _ _ hφ
   · exact sph_basis_right_handed _ _ _ _ hθ hφ
   · exact cyl_basis_right_handed _ _ hφ
+
+/-- right-handedness is a property of the ORDER of the basis vectors: `basis_right_handed` is about the
+order of the coordinate systems `c.axes` (what the property states: "the local bases of all coordinate
+systems").  Listed in the component order of the grid (`axes ++ axes_symmetric`, the rows `basisOp` looks up
+by name) the basis is the same on polar and spherical grids, but on cylindrical grids `(e_r, e_z, e_φ)` is an
+odd permutation of `(e_r, e_φ, e_z)` and therefore LEFT-handed: `det = -1` -/
+theorem basisOp_handedness (a : Angles K) (ha : a.WF) :
+    det (basisOp .polar 1 a) = 1 ∧ det (basisOp .spherical 1 a) = 1 ∧ det (basisOp .cylindrical 2 a) = -1 := by
+  obtain ⟨hθ, hφ⟩ := ha
+  refine ⟨?_, ?_, ?_⟩ <;> la_simp <;> grind
 
 /-! ### 3. ... and equal to the normalised columns of the mapping Jacobian
 
@@ -318,6 +331,77 @@ theorem from_expression_getitem {α : Type} (cl : GridClass) (n : ℕ) (ax : Ax)
   split_ifs at hf
   cases hf
   exact ⟨by simp [getitem, hi], indexOf?_spec _ _ _ (by simpa [getAxisIndex] using hi)⟩
+
+open PdeVerif.Stencil in
+/-- **the component order is the order of the differential operators** (cylindrical grids, the only class on
+which `axes ++ axes_symmetric` differs from `c.axes`), relative to C01's model of the operator kernels
+(`Model/Stencil.lean`, tied to `pde/backends/numba/operators/cylindrical_sym.py` by the check of C01): with
+`ir, iz, iφ` the indices `get_axis_index` returns for the NAMES `r, z, φ`,
+* the divergence takes `1/r + ∂_r` of component `ir` and `∂_z` of component `iz` and ignores `iφ`,
+* the gradient of a scalar stores `∂_r` as component `ir`, `∂_z` as component `iz` and `0` as component `iφ`,
+* the vector Laplacian applies the curvature term `-f/r²` to the components `ir` and `iφ` but not to `iz`. -/
+theorem operators_use_component_order_cyl (r : Int → K) (dr dz : K) (a : Arr K) (i j : Int) :
+    ∃ ir iz iφ : ℕ, getAxisIndex .cylindrical 2 .r = some ir ∧ getAxisIndex .cylindrical 2 .z = some iz ∧
+      getAxisIndex .cylindrical 2 .φ = some iφ ∧
+      cylDivergence r dr dz a i j =
+        a [(ir : Int), i, j] / r i + (a [(ir : Int), i+1, j] - a [(ir : Int), i-1, j]) / (((2:Nat):K) * dr)
+          + (a [(iz : Int), i, j+1] - a [(iz : Int), i, j-1]) / (((2:Nat):K) * dz) ∧
+      cylGradient dr dz a ir i j = (a [i+1, j] - a [i-1, j]) / (((2:Nat):K) * dr) ∧
+      cylGradient dr dz a iz i j = (a [i, j+1] - a [i, j-1]) / (((2:Nat):K) * dz) ∧
+      cylGradient dr dz a iφ i j = ((0:Nat):K) ∧
+      (∀ c : ℕ, c = ir ∨ c = iφ →
+        cylVectorLaplace r dr dz a c i j =
+          (a [(c : Int), i, j+1] - ((2:Nat):K) * a [(c : Int), i, j] + a [(c : Int), i, j-1]) / (dz * dz)
+            - a [(c : Int), i, j] / (r i * r i)
+            + (a [(c : Int), i+1, j] - a [(c : Int), i-1, j]) / (((2:Nat):K) * dr) / r i
+            + (a [(c : Int), i+1, j] - ((2:Nat):K) * a [(c : Int), i, j] + a [(c : Int), i-1, j]) / (dr * dr)) ∧
+      cylVectorLaplace r dr dz a iz i j =
+        (a [(iz : Int), i, j+1] - ((2:Nat):K) * a [(iz : Int), i, j] + a [(iz : Int), i, j-1]) / (dz * dz)
+          + (a [(iz : Int), i+1, j] - a [(iz : Int), i-1, j]) / (((2:Nat):K) * dr) / r i
+          + (a [(iz : Int), i+1, j] - ((2:Nat):K) * a [(iz : Int), i, j] + a [(iz : Int), i-1, j]) / (dr * dr) := by
+  refine ⟨0, 1, 2, by decide, by decide, by decide, ?_, rfl, rfl, rfl, ?_, ?_⟩
+  · simp [cylDivergence]
+  · rintro c (rfl | rfl) <;> simp [cylVectorLaplace]
+  · simp [cylVectorLaplace]
+
+/-- the `DimensionError` branch of `_vector_to_cartesian`: the conversion is performed exactly when the point
+has `dim` coordinates and there are `dim` components, and then it is `vectorToCartesian` and has `dim`
+Cartesian components -/
+theorem vectorToCartesianChecked_spec (cl : GridClass) (n : ℕ) (hn : n ≤ 3) (a : Angles K) (nCoords : ℕ)
+    (comps : Vec K) :
+    (vectorToCartesianChecked cl n a nCoords comps = none ↔
+      ¬ (nCoords = dimOf cl n ∧ comps.length = dimOf cl n)) ∧
+    (∀ v, vectorToCartesianChecked cl n a nCoords comps = some v →
+      v = vectorToCartesian cl n a comps ∧ v.length = dimOf cl n) := by
+  unfold vectorToCartesianChecked dimOf
+  constructor
+  · split_ifs with h <;> simp [h]
+  · intro v hv
+    split_ifs at hv with h
+    cases hv
+    refine ⟨rfl, ?_⟩
+    obtain ⟨-, hc⟩ := h
+    have h4 : n = 0 ∨ n = 1 ∨ n = 2 ∨ n = 3 := by omega
+    cases cl
+    case polar =>
+      match comps, hc with
+      | [u, v], _ => la_simp
+    case spherical =>
+      match comps, hc with
+      | [u, v, w], _ => la_simp
+    case cylindrical =>
+      match comps, hc with
+      | [u, v, w], _ => la_simp
+    all_goals
+      rcases h4 with rfl | rfl | rfl | rfl
+      · match comps, hc with
+        | [], _ => la_simp
+      · match comps, hc with
+        | [u], _ => la_simp
+      · match comps, hc with
+        | [u, v], _ => la_simp
+      · match comps, hc with
+        | [u, v, w], _ => la_simp
 
 /-- the classes whose conversion is consistent on this tree -/
 def OrderConsistentClass (cl : GridClass) : Prop :=
@@ -662,7 +746,17 @@ theorem products_invariant_cylindrical (a : Angles K) (ha : a.WF)
 
 end
 
-/-! ### 8. conversion commutes with divergence and gradient (polynomial fields)
+/-! ### 8. conversion commutes with divergence and gradient - algebraic form, PARTIAL
+
+The theorems of this section are named `_partial`: they cover the components `f_r = r P(r^2)`, `f_φ = r Q(r^2)`
+and the scalars `U(r^2)` only (the class that stays polynomial in `x, y, z`); the fields `c + a r + b r^2` the
+harness uses are NOT of this form.  Polar and spherical grids, on spherical grids the radial component only;
+on cylindrical grids the divergence only and only for the contraction by axis name.  The general statements
+(arbitrary differentiable profiles, all three grid classes, the conversion of the code and the one by name)
+are in section 11 at `K = ℝ`.  Neither section speaks about the discrete operators of py-pde: "commutes up
+to discretisation error" is a continuum identity about the model of the conversion here, the discretisation
+error is measured by the harness (commute leg) and C01 ties the operators to their continuum limits.
+
 
 `A` is any commutative algebra of "functions" with partial derivatives `Dx, Dy(, Dz)` (derivations)
 and coordinate functions `x, y(, z)` with `D_i x_j = δ_ij`: polynomials (`pderiv`, see the
@@ -713,11 +807,11 @@ theorem polar_conversion_divergence (Dx Dy : Derivation K A A) (x y : A) (h : Co
   simp [cartDiv, hxx, hxy, hyx, hyy]
   linear_combination hQ
 
-/-- **C19** `conversion_commutes_with_divergence_poly`, polar grids: for the radial polynomial
+/-- **C19** `conversion_commutes_with_divergence_poly_partial`, polar grids: for the radial polynomial
 field `f_r = r P(r^2)`, `f_φ = r Q(r^2)` the Cartesian divergence of the converted field is the
 polynomial `D = 2 P + 2 X P'` evaluated at `r^2 = x^2 + y^2`, and `D(r^2)` is the value of the polar
 divergence formula `(1/r) d(r f_r)/dr` (second part: `r D(r^2) = (r f_r)'` as polynomials in `r`) -/
-theorem conversion_commutes_with_divergence_poly_polar (Dx Dy : Derivation K A A) (x y : A)
+theorem conversion_commutes_with_divergence_poly_polar_partial (Dx Dy : Derivation K A A) (x y : A)
     (h : Coords2 Dx Dy x y) (P Q : K[X]) :
     cartDiv [Dx, Dy]
         (vectorToCartesian .polar 1 ⟨0, 0, x, y⟩ [aeval (x ^ 2 + y ^ 2) P, aeval (x ^ 2 + y ^ 2) Q])
@@ -734,13 +828,13 @@ theorem conversion_commutes_with_divergence_poly_polar (Dx Dy : Derivation K A A
   · simp [derivative_comp, derivative_mul]
     ring
 
-/-- **C19** `conversion_commutes_with_divergence_poly`, spherical grids (the divergence of
+/-- **C19** `conversion_commutes_with_divergence_poly_partial`, spherical grids (the divergence of
 `SphericalSymGrid` only admits a radial component): for `f_r = r P(r^2)` the Cartesian divergence of
 the converted field is `D = 3 P + 2 X P'` at `r^2 = x^2 + y^2 + z^2`, and `r^2 D(r^2) = (r^2 f_r)'`,
 i.e. `D(r^2) = (1/r^2) d(r^2 f_r)/dr`.  The trigonometric pairs of the point are
 `(cos θ, sin θ) = (z/r, ρ/r)`, `(cos φ, sin φ) = (x/ρ, y/ρ)`; `e_r = (x, y, z)/r` is the first row of
 the basis with the unnormalised pairs `(z, 1)` and `(x, y)`. -/
-theorem conversion_commutes_with_divergence_poly_spherical (Dx Dy Dz : Derivation K A A) (x y z : A)
+theorem conversion_commutes_with_divergence_poly_spherical_partial (Dx Dy Dz : Derivation K A A) (x y z : A)
     (h : Coords3 Dx Dy Dz x y z) (P : K[X]) :
     cartDiv [Dx, Dy, Dz]
         (vectorToCartesian .spherical 1 ⟨z, 1, x, y⟩ [aeval (x ^ 2 + y ^ 2 + z ^ 2) P, 0, 0])
@@ -754,10 +848,10 @@ theorem conversion_commutes_with_divergence_poly_spherical (Dx Dy Dz : Derivatio
   · simp [derivative_comp, derivative_mul]
     ring
 
-/-- **C19** `conversion_commutes_with_divergence_poly` (polar and spherical grids together): the
+/-- **C19** `conversion_commutes_with_divergence_poly_partial` (polar and spherical grids together): the
 Cartesian divergence of the converted polynomial field is the curvilinear divergence formula
 evaluated at the radius of the point -/
-theorem conversion_commutes_with_divergence_poly (P Q : K[X]) :
+theorem conversion_commutes_with_divergence_poly_partial (P Q : K[X]) :
     (∀ (Dx Dy : Derivation K A A) (x y : A), Coords2 Dx Dy x y →
       cartDiv [Dx, Dy]
           (vectorToCartesian .polar 1 ⟨0, 0, x, y⟩ [aeval (x ^ 2 + y ^ 2) P, aeval (x ^ 2 + y ^ 2) Q])
@@ -768,8 +862,8 @@ theorem conversion_commutes_with_divergence_poly (P Q : K[X]) :
         = aeval (x ^ 2 + y ^ 2 + z ^ 2) (3 * P + 2 * X * derivative P)) ∧
     X * (2 * P + 2 * X * derivative P).comp (X ^ 2) = derivative (X * (X * P.comp (X ^ 2))) ∧
     X ^ 2 * (3 * P + 2 * X * derivative P).comp (X ^ 2) = derivative (X ^ 2 * (X * P.comp (X ^ 2))) :=
-  ⟨fun Dx Dy x y h => (conversion_commutes_with_divergence_poly_polar Dx Dy x y h P Q).1,
-   fun Dx Dy Dz x y z h => (conversion_commutes_with_divergence_poly_spherical Dx Dy Dz x y z h P).1,
+  ⟨fun Dx Dy x y h => (conversion_commutes_with_divergence_poly_polar_partial Dx Dy x y h P Q).1,
+   fun Dx Dy Dz x y z h => (conversion_commutes_with_divergence_poly_spherical_partial Dx Dy Dz x y z h P).1,
    by simp [derivative_comp, derivative_mul]; ring,
    by simp [derivative_comp, derivative_mul]; ring⟩
 
@@ -777,7 +871,7 @@ theorem conversion_commutes_with_divergence_poly (P Q : K[X]) :
 components `(r P, S, r Q)` in the operators' order `(r, z, φ)`, `Q` axisymmetric, has the Cartesian
 divergence `2 P + r ∂_r P + ∂_z S` = `(1/r) ∂_r (r f_r) + ∂_z f_z`, the divergence the cylindrical
 operator discretises -/
-theorem cyl_op_conversion_commutes_with_divergence (Dx Dy Dz : Derivation K A A) (x y z : A)
+theorem cyl_op_conversion_commutes_with_divergence_partial (Dx Dy Dz : Derivation K A A) (x y z : A)
     (h : Coords3 Dx Dy Dz x y z) (P S Q : A) (hQ : x * Dy Q - y * Dx Q = 0) :
     cartDiv [Dx, Dy, Dz] (vectorToCartesianOp .cylindrical 2 ⟨0, 0, x, y⟩ [P, S, Q])
       = 2 * P + (x * Dx P + y * Dy P) + Dz S := by
@@ -801,7 +895,7 @@ theorem cyl_conversion_loses_axial_divergence (Dx Dy Dz : Derivation K A A) (x y
 /-- **C19** conversion commutes with the gradient of a scalar, polar and spherical grids: the
 grid gradient of `u = U(r^2)` is `(u', 0[, 0])` with `u' = 2 r U'(r^2)`; converted it equals the
 Cartesian gradient of `U(x^2 + y^2 (+ z^2))` -/
-theorem conversion_commutes_with_gradient_poly (U : K[X]) :
+theorem conversion_commutes_with_gradient_poly_partial (U : K[X]) :
     (∀ (Dx Dy : Derivation K A A) (x y : A), Coords2 Dx Dy x y →
       vectorToCartesian .polar 1 ⟨0, 0, x, y⟩ [aeval (x ^ 2 + y ^ 2) (2 * derivative U), 0]
         = cartGrad [Dx, Dy] (aeval (x ^ 2 + y ^ 2) U)) ∧
@@ -831,13 +925,13 @@ theorem coords3_mvPolynomial :
   constructor <;> simp [MvPolynomial.pderiv_X]
 
 /-- the polar statement for genuine polynomial fields in `x, y` -/
-theorem conversion_commutes_with_divergence_mvPolynomial (P Q : K[X]) :
+theorem conversion_commutes_with_divergence_mvPolynomial_partial (P Q : K[X]) :
     let x : MvPolynomial (Fin 2) K := MvPolynomial.X 0
     let y : MvPolynomial (Fin 2) K := MvPolynomial.X 1
     cartDiv [MvPolynomial.pderiv 0, MvPolynomial.pderiv 1]
         (vectorToCartesian .polar 1 ⟨0, 0, x, y⟩ [aeval (x ^ 2 + y ^ 2) P, aeval (x ^ 2 + y ^ 2) Q])
       = aeval (x ^ 2 + y ^ 2) (2 * P + 2 * X * derivative P) :=
-  (conversion_commutes_with_divergence_poly_polar _ _ _ _ coords2_mvPolynomial P Q).1
+  (conversion_commutes_with_divergence_poly_polar_partial _ _ _ _ coords2_mvPolynomial P Q).1
 
 end
 
@@ -943,6 +1037,327 @@ theorem sph_jacobian_hasDerivAt (r θ φ : ℝ) (i : ℕ) (hi : i < 3) :
   · have := (hasDerivAt_cos θ).const_mul r
     exact this.congr_deriv (by ring)
   · exact hasDerivAt_const _ _
+
+end
+
+/-! ### 11. conversion commutes with divergence and gradient: arbitrary differentiable fields (`K = ℝ`)
+
+The fields of the symmetric grids are functions of the radius (and of `z` on cylindrical grids).  For ANY
+differentiable component profiles - in particular the polynomials `c + a r + b r^2 (+ e z)` the harness uses -
+the Cartesian components of the converted field are differentiated along `x`, `y` (, `z`) with Mathlib's
+`HasDerivAt`, the point being off the axis (`0 < x^2 + y^2`).  The angles handed to the model of
+`_vector_to_cartesian` are the genuine `(cos, sin)` pairs of the point: `(x/ρ, y/ρ)` and `(z/r, ρ/r)`.
+Each divergence statement has the form "there are `a, b(, c)` which ARE the partial derivatives (derivatives are
+unique) and whose sum is the curvilinear divergence formula".
+
+* polar, spherical: the conversion of the code commutes with divergence and gradient
+  (`polar/spherical_conversion_commutes_with_divergence_real`, `..._gradient_real`);
+* cylindrical: the contraction by axis name commutes (`cyl_op_conversion_commutes_with_divergence_real`,
+  `cyl_op_conversion_commutes_with_gradient_real`); the conversion of the code gives the divergence of the
+  field with the components at positions 1 and 2 exchanged (`cyl_conversion_divergence_real`, finding F7).
+
+Still outside: the gradient of a VECTOR field (tensor conversion is not implemented in py-pde), the discrete
+operators (C01) and the interpolation (C16): the harness measures the discretisation error. -/
+
+section
+open Real
+
+/-- derivative of the radius `√(t² + c)` along one Cartesian coordinate -/
+theorem hasDerivAt_radius (x c : ℝ) (h : 0 < x ^ 2 + c) :
+    HasDerivAt (fun t : ℝ => √(t ^ 2 + c)) (x / √(x ^ 2 + c)) x := by
+  have h1 : HasDerivAt (fun t : ℝ => t ^ 2 + c) (2 * x) x := by
+    simpa using ((hasDerivAt_pow 2 x).add_const c)
+  have h2 := h1.sqrt (ne_of_gt h)
+  refine h2.congr_deriv ?_
+  have : √(x ^ 2 + c) ≠ 0 := (Real.sqrt_pos.mpr h).ne'
+  field_simp
+
+/-- `F(r) · x/r` along `x`, `r = √(x² + c)` -/
+theorem hasDerivAt_radial_comp (F : ℝ → ℝ) (F' x c : ℝ) (h : 0 < x ^ 2 + c)
+    (hF : HasDerivAt F F' √(x ^ 2 + c)) :
+    HasDerivAt (fun t : ℝ => F √(t ^ 2 + c) * (t / √(t ^ 2 + c)))
+      (F' * (x / √(x ^ 2 + c)) ^ 2 + F √(x ^ 2 + c) * (c / √(x ^ 2 + c) ^ 3)) x := by
+  have hr := hasDerivAt_radius x c h
+  have hne : √(x ^ 2 + c) ≠ 0 := (Real.sqrt_pos.mpr h).ne'
+  have hsq : √(x ^ 2 + c) ^ 2 = x ^ 2 + c := Real.sq_sqrt h.le
+  have h1 : HasDerivAt (fun t : ℝ => F √(t ^ 2 + c)) (F' * (x / √(x ^ 2 + c))) x := hF.comp x hr
+  have h2 : HasDerivAt (fun t : ℝ => t / √(t ^ 2 + c))
+      ((1 * √(x ^ 2 + c) - x * (x / √(x ^ 2 + c))) / √(x ^ 2 + c) ^ 2) x := (hasDerivAt_id' x).div hr hne
+  refine (h1.mul h2).congr_deriv ?_
+  field_simp
+  linear_combination (F √(x ^ 2 + c)) * hsq
+
+/-- `G(r) · k/r` along `x` (`k` constant) -/
+theorem hasDerivAt_radial_cross (G : ℝ → ℝ) (G' x c k : ℝ) (h : 0 < x ^ 2 + c)
+    (hG : HasDerivAt G G' √(x ^ 2 + c)) :
+    HasDerivAt (fun t : ℝ => G √(t ^ 2 + c) * (k / √(t ^ 2 + c)))
+      (G' * (x / √(x ^ 2 + c)) * (k / √(x ^ 2 + c)) - G √(x ^ 2 + c) * (k * x / √(x ^ 2 + c) ^ 3)) x := by
+  have hr := hasDerivAt_radius x c h
+  have hne : √(x ^ 2 + c) ≠ 0 := (Real.sqrt_pos.mpr h).ne'
+  have h1 : HasDerivAt (fun t : ℝ => G √(t ^ 2 + c)) (G' * (x / √(x ^ 2 + c))) x := hG.comp x hr
+  have h2 : HasDerivAt (fun t : ℝ => k / √(t ^ 2 + c))
+      ((0 * √(x ^ 2 + c) - k * (x / √(x ^ 2 + c))) / √(x ^ 2 + c) ^ 2) x := (hasDerivAt_const x k).div hr hne
+  refine (h1.mul h2).congr_deriv ?_
+  field_simp
+  ring
+
+/-- `G(r) · k/ρ` along `x` with two radii `r = √(x² + c)`, `ρ = √(x² + c')` (`k` constant) -/
+theorem hasDerivAt_radial_cross2 (G : ℝ → ℝ) (G' x c c' k : ℝ) (h : 0 < x ^ 2 + c) (h' : 0 < x ^ 2 + c')
+    (hG : HasDerivAt G G' √(x ^ 2 + c)) :
+    HasDerivAt (fun t : ℝ => G √(t ^ 2 + c) * (k / √(t ^ 2 + c')))
+      (G' * (x / √(x ^ 2 + c)) * (k / √(x ^ 2 + c')) - G √(x ^ 2 + c) * (k * x / √(x ^ 2 + c') ^ 3)) x := by
+  have hr := hasDerivAt_radius x c h
+  have hr' := hasDerivAt_radius x c' h'
+  have hne : √(x ^ 2 + c) ≠ 0 := (Real.sqrt_pos.mpr h).ne'
+  have hne' : √(x ^ 2 + c') ≠ 0 := (Real.sqrt_pos.mpr h').ne'
+  have h1 : HasDerivAt (fun t : ℝ => G √(t ^ 2 + c)) (G' * (x / √(x ^ 2 + c))) x := hG.comp x hr
+  have h2 : HasDerivAt (fun t : ℝ => k / √(t ^ 2 + c'))
+      ((0 * √(x ^ 2 + c') - k * (x / √(x ^ 2 + c'))) / √(x ^ 2 + c') ^ 2) x := (hasDerivAt_const x k).div hr' hne'
+  refine (h1.mul h2).congr_deriv ?_
+  field_simp
+  ring
+
+/-- the polar field with radial profiles `f_r = F(r)`, `f_φ = G(r)` converted by the model of
+`_vector_to_cartesian` at the Cartesian point `(x, y)`: `(cos φ, sin φ) = (x/r, y/r)` -/
+noncomputable def polarFieldCart (F G : ℝ → ℝ) (x y : ℝ) : Vec ℝ :=
+  vectorToCartesian .polar 1 ⟨0, 0, x / √(x ^ 2 + y ^ 2), y / √(x ^ 2 + y ^ 2)⟩
+    [F √(x ^ 2 + y ^ 2), G √(x ^ 2 + y ^ 2)]
+
+theorem polarFieldCart_eq (F G : ℝ → ℝ) (x y : ℝ) :
+    polarFieldCart F G x y =
+      [F √(x ^ 2 + y ^ 2) * (x / √(x ^ 2 + y ^ 2)) + G √(x ^ 2 + y ^ 2) * -(y / √(x ^ 2 + y ^ 2)),
+       F √(x ^ 2 + y ^ 2) * (y / √(x ^ 2 + y ^ 2)) + G √(x ^ 2 + y ^ 2) * (x / √(x ^ 2 + y ^ 2))] := by
+  simp [polarFieldCart, vectorToCartesian, basis, polarBasis, vecMat, addV, smulV]
+
+theorem polar_conversion_commutes_with_divergence_real (F G : ℝ → ℝ) (F' G' x y : ℝ)
+    (h : 0 < x ^ 2 + y ^ 2) (hF : HasDerivAt F F' √(x ^ 2 + y ^ 2)) (hG : HasDerivAt G G' √(x ^ 2 + y ^ 2)) :
+    ∃ a b, HasDerivAt (fun t => compAt 0 (polarFieldCart F G t y)) a x ∧
+      HasDerivAt (fun t => compAt 1 (polarFieldCart F G x t)) b y ∧
+      a + b = F' + F √(x ^ 2 + y ^ 2) / √(x ^ 2 + y ^ 2) := by
+  have h' : 0 < y ^ 2 + x ^ 2 := by rwa [add_comm]
+  have e : y ^ 2 + x ^ 2 = x ^ 2 + y ^ 2 := add_comm _ _
+  have hne : √(x ^ 2 + y ^ 2) ≠ 0 := (Real.sqrt_pos.mpr h).ne'
+  have hsq : √(x ^ 2 + y ^ 2) ^ 2 = x ^ 2 + y ^ 2 := Real.sq_sqrt h.le
+  have ax := (hasDerivAt_radial_comp F F' x (y ^ 2) h hF).add
+    (hasDerivAt_radial_cross G G' x (y ^ 2) y h hG).neg
+  have by_ := (hasDerivAt_radial_comp F F' y (x ^ 2) h' (by rwa [e])).add
+    (hasDerivAt_radial_cross G G' y (x ^ 2) x h' (by rwa [e]))
+  refine ⟨_, _, ax.congr_of_eventuallyEq (Filter.Eventually.of_forall fun t => ?_),
+    by_.congr_of_eventuallyEq (Filter.Eventually.of_forall fun t => ?_), ?_⟩
+  · simp [compAt, polarFieldCart_eq]
+  · simp [compAt, polarFieldCart_eq, add_comm (x ^ 2) (t ^ 2)]
+  · rw [e]
+    field_simp
+    linear_combination (-(F' * √(x ^ 2 + y ^ 2) + F √(x ^ 2 + y ^ 2))) * hsq
+
+/-- conversion commutes with the gradient (polar grids, any differentiable radial profile `U`): the grid
+gradient `(U'(r), 0)` of `u = U(r)`, converted by the model of `_vector_to_cartesian`, consists of the
+partial derivatives of `(x, y) ↦ U(√(x² + y²))` -/
+theorem polar_conversion_commutes_with_gradient_real (U : ℝ → ℝ) (U' x y : ℝ) (h : 0 < x ^ 2 + y ^ 2)
+    (hU : HasDerivAt U U' √(x ^ 2 + y ^ 2)) :
+    HasDerivAt (fun t => U √(t ^ 2 + y ^ 2))
+      (compAt 0 (vectorToCartesian .polar 1 ⟨0, 0, x / √(x ^ 2 + y ^ 2), y / √(x ^ 2 + y ^ 2)⟩ [U', 0])) x ∧
+    HasDerivAt (fun t => U √(x ^ 2 + t ^ 2))
+      (compAt 1 (vectorToCartesian .polar 1 ⟨0, 0, x / √(x ^ 2 + y ^ 2), y / √(x ^ 2 + y ^ 2)⟩ [U', 0])) y := by
+  have h' : 0 < y ^ 2 + x ^ 2 := by rwa [add_comm]
+  have e : y ^ 2 + x ^ 2 = x ^ 2 + y ^ 2 := add_comm _ _
+  constructor
+  · refine (hU.comp x (hasDerivAt_radius x (y ^ 2) h)).congr_deriv ?_
+    simp [compAt, vectorToCartesian, basis, polarBasis, vecMat, addV, smulV]
+  · have hU' : HasDerivAt U U' √(y ^ 2 + x ^ 2) := by rwa [e]
+    have := hU'.comp y (hasDerivAt_radius y (x ^ 2) h')
+    refine (this.congr_of_eventuallyEq (Filter.Eventually.of_forall fun t => ?_)).congr_deriv ?_
+    · simp [add_comm (x ^ 2) (t ^ 2)]
+    · simp [compAt, vectorToCartesian, basis, polarBasis, vecMat, addV, smulV, e]
+
+/-- a field on a cylindrical grid with components `F, S, G : (ρ, z) ↦ ℝ` at the positions 0, 1, 2, converted
+to Cartesian components at `(x, y, z)` (`(cos φ, sin φ) = (x/ρ, y/ρ)`) as the code does
+(`vectorToCartesian`: positions read as `(r, φ, z)`) -/
+noncomputable def cylFieldCart (F S G : ℝ → ℝ → ℝ) (x y z : ℝ) : Vec ℝ :=
+  vectorToCartesian .cylindrical 2 ⟨0, 0, x / √(x ^ 2 + y ^ 2), y / √(x ^ 2 + y ^ 2)⟩
+    [F √(x ^ 2 + y ^ 2) z, S √(x ^ 2 + y ^ 2) z, G √(x ^ 2 + y ^ 2) z]
+
+/-- ... and by axis name (`vectorToCartesianOp`: positions read as `(r, z, φ)`, the operators' order) -/
+noncomputable def cylFieldCartOp (F S G : ℝ → ℝ → ℝ) (x y z : ℝ) : Vec ℝ :=
+  vectorToCartesianOp .cylindrical 2 ⟨0, 0, x / √(x ^ 2 + y ^ 2), y / √(x ^ 2 + y ^ 2)⟩
+    [F √(x ^ 2 + y ^ 2) z, S √(x ^ 2 + y ^ 2) z, G √(x ^ 2 + y ^ 2) z]
+
+theorem cylFieldCart_eq (F S G : ℝ → ℝ → ℝ) (x y z : ℝ) :
+    cylFieldCart F S G x y z =
+      [F √(x ^ 2 + y ^ 2) z * (x / √(x ^ 2 + y ^ 2)) + S √(x ^ 2 + y ^ 2) z * -(y / √(x ^ 2 + y ^ 2)),
+       F √(x ^ 2 + y ^ 2) z * (y / √(x ^ 2 + y ^ 2)) + S √(x ^ 2 + y ^ 2) z * (x / √(x ^ 2 + y ^ 2)),
+       G √(x ^ 2 + y ^ 2) z] ∧
+    cylFieldCartOp F S G x y z = cylFieldCart F G S x y z := by
+  constructor <;>
+  simp [cylFieldCart, cylFieldCartOp, vectorToCartesian, vectorToCartesianOp, basisOp, basis, cylBasis, vecMat,
+    addV, smulV, zero, one, componentOrder, gridAxes, gridAxesSym, describedIdx, symIdx, csAxes, csIndex, indexOf?,
+    List.range, List.range.loop]
+
+/-- the divergence after the conversion the code performs: `∂_ρ F + F/ρ + ∂_z G` - the `z`-derivative is
+taken of the component at position 2, although the cylindrical divergence operator differentiates the
+component at position 1 along `z` (finding F7) -/
+theorem cyl_conversion_divergence_real (F S G : ℝ → ℝ → ℝ) (Fρ Sρ Gz x y z : ℝ) (h : 0 < x ^ 2 + y ^ 2)
+    (hF : HasDerivAt (fun s => F s z) Fρ √(x ^ 2 + y ^ 2))
+    (hS : HasDerivAt (fun s => S s z) Sρ √(x ^ 2 + y ^ 2))
+    (hG : HasDerivAt (fun t => G √(x ^ 2 + y ^ 2) t) Gz z) :
+    ∃ a b c, HasDerivAt (fun t => compAt 0 (cylFieldCart F S G t y z)) a x ∧
+      HasDerivAt (fun t => compAt 1 (cylFieldCart F S G x t z)) b y ∧
+      HasDerivAt (fun t => compAt 2 (cylFieldCart F S G x y t)) c z ∧
+      a + b + c = Fρ + F √(x ^ 2 + y ^ 2) z / √(x ^ 2 + y ^ 2) + Gz := by
+  obtain ⟨a, b, ha, hb, hab⟩ := polar_conversion_commutes_with_divergence_real (fun s => F s z) (fun s => S s z)
+    Fρ Sρ x y h hF hS
+  refine ⟨a, b, Gz, ha.congr_of_eventuallyEq (Filter.Eventually.of_forall fun t => ?_),
+    hb.congr_of_eventuallyEq (Filter.Eventually.of_forall fun t => ?_),
+    hG.congr_of_eventuallyEq (Filter.Eventually.of_forall fun t => ?_), by rw [hab]⟩ <;>
+  simp [compAt, (cylFieldCart_eq _ _ _ _ _ _).1, polarFieldCart_eq]
+
+/-- **conversion commutes with the divergence on cylindrical grids for the contraction by axis name**
+(arbitrary differentiable components, in the operators' order `(f_r, f_z, f_φ) = (F, S, G)`): the Cartesian
+divergence of the converted field is `∂_ρ f_r + f_r/ρ + ∂_z f_z`, the cylindrical divergence -/
+theorem cyl_op_conversion_commutes_with_divergence_real (F S G : ℝ → ℝ → ℝ) (Fρ Gρ Sz x y z : ℝ)
+    (h : 0 < x ^ 2 + y ^ 2)
+    (hF : HasDerivAt (fun s => F s z) Fρ √(x ^ 2 + y ^ 2))
+    (hG : HasDerivAt (fun s => G s z) Gρ √(x ^ 2 + y ^ 2))
+    (hS : HasDerivAt (fun t => S √(x ^ 2 + y ^ 2) t) Sz z) :
+    ∃ a b c, HasDerivAt (fun t => compAt 0 (cylFieldCartOp F S G t y z)) a x ∧
+      HasDerivAt (fun t => compAt 1 (cylFieldCartOp F S G x t z)) b y ∧
+      HasDerivAt (fun t => compAt 2 (cylFieldCartOp F S G x y t)) c z ∧
+      a + b + c = Fρ + F √(x ^ 2 + y ^ 2) z / √(x ^ 2 + y ^ 2) + Sz := by
+  simp only [(cylFieldCart_eq _ _ _ _ _ _).2]
+  exact cyl_conversion_divergence_real F G S Fρ Gρ Sz x y z h hF hG hS
+
+/-- conversion commutes with the gradient on cylindrical grids for the contraction by axis name: the grid
+gradient `(∂_ρ u, ∂_z u, 0)` (operators' order) of `u = U(ρ, z)` is converted to the partial derivatives of
+`(x, y, z) ↦ U(√(x² + y²), z)` -/
+theorem cyl_op_conversion_commutes_with_gradient_real (U : ℝ → ℝ → ℝ) (Uρ Uz x y z : ℝ) (h : 0 < x ^ 2 + y ^ 2)
+    (hρ : HasDerivAt (fun s => U s z) Uρ √(x ^ 2 + y ^ 2))
+    (hz : HasDerivAt (fun t => U √(x ^ 2 + y ^ 2) t) Uz z) :
+    let v := vectorToCartesianOp .cylindrical 2 ⟨0, 0, x / √(x ^ 2 + y ^ 2), y / √(x ^ 2 + y ^ 2)⟩ [Uρ, Uz, 0]
+    HasDerivAt (fun t => U √(t ^ 2 + y ^ 2) z) (compAt 0 v) x ∧
+    HasDerivAt (fun t => U √(x ^ 2 + t ^ 2) z) (compAt 1 v) y ∧
+    HasDerivAt (fun t => U √(x ^ 2 + y ^ 2) t) (compAt 2 v) z := by
+  intro v
+  have hv : v = [Uρ * (x / √(x ^ 2 + y ^ 2)), Uρ * (y / √(x ^ 2 + y ^ 2)), Uz] := by
+    simp [v, vectorToCartesianOp, basisOp, basis, cylBasis, vecMat, addV, smulV, zero, one, componentOrder,
+      gridAxes, gridAxesSym, describedIdx, symIdx, csAxes, csIndex, indexOf?, List.range, List.range.loop]
+  have hp := polar_conversion_commutes_with_gradient_real (fun s => U s z) Uρ x y h hρ
+  refine ⟨hp.1.congr_deriv ?_, hp.2.congr_deriv ?_, hz.congr_deriv ?_⟩ <;>
+  simp [hv, compAt, vectorToCartesian, basis, polarBasis, vecMat, addV, smulV]
+
+/-- the spherical field `F(r) e_r + G(r) e_φ` (the fields the divergence operator of `SphericalSymGrid` admits:
+no `θ`-component) converted by the model of `_vector_to_cartesian` at the Cartesian point `(x, y, z)`:
+`(cos θ, sin θ) = (z/r, ρ/r)`, `(cos φ, sin φ) = (x/ρ, y/ρ)`, `ρ = √(x² + y²)` -/
+noncomputable def sphFieldCart (F G : ℝ → ℝ) (x y z : ℝ) : Vec ℝ :=
+  vectorToCartesian .spherical 1
+    ⟨z / √(x ^ 2 + y ^ 2 + z ^ 2), √(x ^ 2 + y ^ 2) / √(x ^ 2 + y ^ 2 + z ^ 2),
+     x / √(x ^ 2 + y ^ 2), y / √(x ^ 2 + y ^ 2)⟩
+    [F √(x ^ 2 + y ^ 2 + z ^ 2), 0, G √(x ^ 2 + y ^ 2 + z ^ 2)]
+
+/-- off the polar axis the converted field is `F(r) (x, y, z)/r + G(r) (-y, x, 0)/ρ` -/
+theorem sphFieldCart_eq (F G : ℝ → ℝ) (x y z : ℝ) (h : 0 < x ^ 2 + y ^ 2) :
+    sphFieldCart F G x y z =
+      [F √(x ^ 2 + y ^ 2 + z ^ 2) * (x / √(x ^ 2 + y ^ 2 + z ^ 2)) +
+         -(G √(x ^ 2 + y ^ 2 + z ^ 2) * (y / √(x ^ 2 + y ^ 2))),
+       F √(x ^ 2 + y ^ 2 + z ^ 2) * (y / √(x ^ 2 + y ^ 2 + z ^ 2)) +
+         G √(x ^ 2 + y ^ 2 + z ^ 2) * (x / √(x ^ 2 + y ^ 2)),
+       F √(x ^ 2 + y ^ 2 + z ^ 2) * (z / √(x ^ 2 + y ^ 2 + z ^ 2))] := by
+  have hne : √(x ^ 2 + y ^ 2) ≠ 0 := (Real.sqrt_pos.mpr h).ne'
+  simp [sphFieldCart, vectorToCartesian, basis, sphBasis, vecMat, addV, smulV, zero]
+  refine ⟨?_, ?_⟩ <;> left <;> field_simp
+
+/-- **conversion commutes with the divergence on spherical grids** (any differentiable profiles `f_r = F(r)`,
+`f_φ = G(r)`, `f_θ = 0`): the Cartesian divergence of the converted field is `F'(r) + 2 F(r)/r`, the value of
+the spherical divergence `(1/r²) d(r² f_r)/dr` (the azimuthal component does not contribute), at every point
+off the polar axis -/
+theorem spherical_conversion_commutes_with_divergence_real (F G : ℝ → ℝ) (F' G' x y z : ℝ)
+    (h : 0 < x ^ 2 + y ^ 2) (hF : HasDerivAt F F' √(x ^ 2 + y ^ 2 + z ^ 2))
+    (hG : HasDerivAt G G' √(x ^ 2 + y ^ 2 + z ^ 2)) :
+    ∃ a b c, HasDerivAt (fun t => compAt 0 (sphFieldCart F G t y z)) a x ∧
+      HasDerivAt (fun t => compAt 1 (sphFieldCart F G x t z)) b y ∧
+      HasDerivAt (fun t => compAt 2 (sphFieldCart F G x y t)) c z ∧
+      a + b + c = F' + 2 * F √(x ^ 2 + y ^ 2 + z ^ 2) / √(x ^ 2 + y ^ 2 + z ^ 2) := by
+  have hz2 : 0 ≤ z ^ 2 := sq_nonneg z
+  have h3 : 0 < x ^ 2 + y ^ 2 + z ^ 2 := by linarith
+  have h' : 0 < y ^ 2 + x ^ 2 := by rwa [add_comm]
+  have e0 : y ^ 2 + x ^ 2 = x ^ 2 + y ^ 2 := add_comm _ _
+  have e1 : x ^ 2 + (y ^ 2 + z ^ 2) = x ^ 2 + y ^ 2 + z ^ 2 := by ring
+  have e2 : y ^ 2 + (x ^ 2 + z ^ 2) = x ^ 2 + y ^ 2 + z ^ 2 := by ring
+  have e3 : z ^ 2 + (x ^ 2 + y ^ 2) = x ^ 2 + y ^ 2 + z ^ 2 := by ring
+  have hne : √(x ^ 2 + y ^ 2 + z ^ 2) ≠ 0 := (Real.sqrt_pos.mpr h3).ne'
+  have hne2 : √(x ^ 2 + y ^ 2) ≠ 0 := (Real.sqrt_pos.mpr h).ne'
+  have hsq : √(x ^ 2 + y ^ 2 + z ^ 2) ^ 2 = x ^ 2 + y ^ 2 + z ^ 2 := Real.sq_sqrt h3.le
+  have dx := (hasDerivAt_radial_comp F F' x (y ^ 2 + z ^ 2) (by rwa [e1]) (by rwa [e1])).add
+    (hasDerivAt_radial_cross2 G G' x (y ^ 2 + z ^ 2) (y ^ 2) y (by rwa [e1]) h (by rwa [e1])).neg
+  have dy := (hasDerivAt_radial_comp F F' y (x ^ 2 + z ^ 2) (by rwa [e2]) (by rwa [e2])).add
+    (hasDerivAt_radial_cross2 G G' y (x ^ 2 + z ^ 2) (x ^ 2) x (by rwa [e2]) h' (by rwa [e2]))
+  have dz := hasDerivAt_radial_comp F F' z (x ^ 2 + y ^ 2) (by rwa [e3]) (by rwa [e3])
+  have nx : ∀ᶠ t in nhds x, 0 < t ^ 2 + y ^ 2 :=
+    ContinuousAt.eventually_lt continuousAt_const (by fun_prop) h
+  have ny : ∀ᶠ t in nhds y, 0 < x ^ 2 + t ^ 2 :=
+    ContinuousAt.eventually_lt continuousAt_const (by fun_prop) h
+  refine ⟨_, _, _, dx.congr_of_eventuallyEq (nx.mono fun t ht => ?_),
+    dy.congr_of_eventuallyEq (ny.mono fun t ht => ?_),
+    dz.congr_of_eventuallyEq (Filter.Eventually.of_forall fun t => ?_), ?_⟩
+  · simp [compAt, sphFieldCart_eq F G t y z ht, add_assoc]
+  · simp [compAt, sphFieldCart_eq F G x t z ht, add_comm (x ^ 2) (t ^ 2), add_assoc]
+  · simp [compAt, sphFieldCart_eq F G x y t h, show x ^ 2 + y ^ 2 + t ^ 2 = t ^ 2 + (x ^ 2 + y ^ 2) by ring]
+  · rw [e0, e1, e2, e3]
+    have key : F' * (x / √(x ^ 2 + y ^ 2 + z ^ 2)) ^ 2 +
+          F √(x ^ 2 + y ^ 2 + z ^ 2) * ((y ^ 2 + z ^ 2) / √(x ^ 2 + y ^ 2 + z ^ 2) ^ 3) +
+        (F' * (y / √(x ^ 2 + y ^ 2 + z ^ 2)) ^ 2 +
+          F √(x ^ 2 + y ^ 2 + z ^ 2) * ((x ^ 2 + z ^ 2) / √(x ^ 2 + y ^ 2 + z ^ 2) ^ 3)) +
+        (F' * (z / √(x ^ 2 + y ^ 2 + z ^ 2)) ^ 2 +
+          F √(x ^ 2 + y ^ 2 + z ^ 2) * ((x ^ 2 + y ^ 2) / √(x ^ 2 + y ^ 2 + z ^ 2) ^ 3)) =
+        F' + 2 * F √(x ^ 2 + y ^ 2 + z ^ 2) / √(x ^ 2 + y ^ 2 + z ^ 2) := by
+      field_simp
+      linear_combination (-(F' * √(x ^ 2 + y ^ 2 + z ^ 2) + 2 * F √(x ^ 2 + y ^ 2 + z ^ 2))) * hsq
+    linear_combination key
+
+/-- conversion commutes with the gradient on spherical grids: the grid gradient `(U'(r), 0, 0)` of `u = U(r)`,
+converted by the model of `_vector_to_cartesian`, consists of the partial derivatives of
+`(x, y, z) ↦ U(√(x² + y² + z²))` (off the polar axis) -/
+theorem spherical_conversion_commutes_with_gradient_real (U : ℝ → ℝ) (U' x y z : ℝ) (h : 0 < x ^ 2 + y ^ 2)
+    (hU : HasDerivAt U U' √(x ^ 2 + y ^ 2 + z ^ 2)) :
+    let v := sphFieldCart (fun _ => U') (fun _ => 0) x y z
+    HasDerivAt (fun t => U √(t ^ 2 + y ^ 2 + z ^ 2)) (compAt 0 v) x ∧
+    HasDerivAt (fun t => U √(x ^ 2 + t ^ 2 + z ^ 2)) (compAt 1 v) y ∧
+    HasDerivAt (fun t => U √(x ^ 2 + y ^ 2 + t ^ 2)) (compAt 2 v) z := by
+  intro v
+  have hz2 : 0 ≤ z ^ 2 := sq_nonneg z
+  have h3 : 0 < x ^ 2 + y ^ 2 + z ^ 2 := by linarith
+  have e1 : x ^ 2 + (y ^ 2 + z ^ 2) = x ^ 2 + y ^ 2 + z ^ 2 := by ring
+  have e2 : y ^ 2 + (x ^ 2 + z ^ 2) = x ^ 2 + y ^ 2 + z ^ 2 := by ring
+  have e3 : z ^ 2 + (x ^ 2 + y ^ 2) = x ^ 2 + y ^ 2 + z ^ 2 := by ring
+  have dx := (show HasDerivAt U U' √(x ^ 2 + (y ^ 2 + z ^ 2)) by rwa [e1]).comp x
+    (hasDerivAt_radius x (y ^ 2 + z ^ 2) (by rwa [e1]))
+  have dy := (show HasDerivAt U U' √(y ^ 2 + (x ^ 2 + z ^ 2)) by rwa [e2]).comp y
+    (hasDerivAt_radius y (x ^ 2 + z ^ 2) (by rwa [e2]))
+  have dz := (show HasDerivAt U U' √(z ^ 2 + (x ^ 2 + y ^ 2)) by rwa [e3]).comp z
+    (hasDerivAt_radius z (x ^ 2 + y ^ 2) (by rwa [e3]))
+  refine ⟨(dx.congr_of_eventuallyEq (Filter.Eventually.of_forall fun t => ?_)).congr_deriv ?_,
+    (dy.congr_of_eventuallyEq (Filter.Eventually.of_forall fun t => ?_)).congr_deriv ?_,
+    (dz.congr_of_eventuallyEq (Filter.Eventually.of_forall fun t => ?_)).congr_deriv ?_⟩
+  · simp [add_assoc]
+  · simp [v, compAt, sphFieldCart_eq _ _ x y z h, e1]
+  · simp [show x ^ 2 + t ^ 2 + z ^ 2 = t ^ 2 + (x ^ 2 + z ^ 2) by ring]
+  · simp [v, compAt, sphFieldCart_eq _ _ x y z h, e2]
+  · simp [show x ^ 2 + y ^ 2 + t ^ 2 = t ^ 2 + (x ^ 2 + y ^ 2) by ring]
+  · simp [v, compAt, sphFieldCart_eq _ _ x y z h, e3]
+
+/-- the hypotheses are satisfiable by the fields the harness uses: `f_r = 1 + 2 r + 3 r^2`, `f_φ = 2 - r` at the
+point `(3, 4)` (`r = 5`): the Cartesian divergence of the converted field is `f_r' + f_r/r = 32 + 86/5` -/
+example : ∃ a b : ℝ,
+    HasDerivAt (fun t => compAt 0 (polarFieldCart (fun r => 1 + 2 * r + 3 * r ^ 2) (fun r => 2 - r) t 4)) a 3 ∧
+    HasDerivAt (fun t => compAt 1 (polarFieldCart (fun r => 1 + 2 * r + 3 * r ^ 2) (fun r => 2 - r) 3 t)) b 4 ∧
+    a + b = (2 + 6 * √(3 ^ 2 + 4 ^ 2)) +
+      (1 + 2 * √(3 ^ 2 + 4 ^ 2) + 3 * √(3 ^ 2 + 4 ^ 2) ^ 2) / √(3 ^ 2 + 4 ^ 2) := by
+  refine polar_conversion_commutes_with_divergence_real _ _ _ (-1) 3 4 (by norm_num) ?_ ?_
+  · have h := ((hasDerivAt_id' √((3:ℝ) ^ 2 + 4 ^ 2)).const_mul 2).const_add 1 |>.add
+      (((hasDerivAt_pow 2 √((3:ℝ) ^ 2 + 4 ^ 2))).const_mul 3)
+    refine h.congr_deriv ?_
+    norm_num
+    ring
+  · simpa using (hasDerivAt_id' √((3:ℝ) ^ 2 + 4 ^ 2)).const_sub 2
 
 end
 
